@@ -170,7 +170,7 @@ func TestVerifC01(t *testing.T) {
 
 	maxFrames := run.N(3000, 20000)
 	var totAllocs, totFrees, totOOM, totRealloc int
-	run.Cases(run.N(1000, 200000), func(c *vlib.Case) {
+	run.Cases(run.N(4000, 200000), func(c *vlib.Case) {
 		r := c.R.Fork(0xC01)
 		mf := maxFrames
 		big := r.Intn(25) == 0
